@@ -11,6 +11,7 @@ import (
 	"time"
 
 	"verif.local/sim/rt"
+	"verif.local/sim/simnet"
 )
 
 // Second half of the oracles: votes (C05), client history (C07), membership
@@ -631,6 +632,106 @@ func (run *simRun) shutdownWatch() {
 		return
 	}
 	run.sim.After(10*int64(run.cfg.HB), "shutdown-watch", run.shutdownWatch)
+}
+
+// ---- C20: identity isolation and storage exclusivity ---------------------------------------------------
+
+const handshakeLen = 1 + 8 + 8 + 8 + 8 // rpc type, term, src, cid, nid
+
+// handshakeOf decodes the identity a dialer named in its first request.
+func handshakeOf(c *simnet.Conn) (cid, nid uint64, ok bool) {
+	h := c.Head
+	if len(h) < handshakeLen || h[0] != byte(rpcIdentity) {
+		return 0, 0, false
+	}
+	return byteOrder.Uint64(h[17:25]), byteOrder.Uint64(h[25:33]), true
+}
+
+// checkRequestIdentity: every request a node processes arrived on a connection
+// whose handshake named exactly this node.
+func (l *ledgers) checkRequestIdentity(r *Raft, req request, c *conn) {
+	run := l.run
+	ni := run.raftOf[r]
+	if ni == nil || ni.dead {
+		return
+	}
+	sc, ok := c.rwc.(*simnet.Conn)
+	if !ok || sc.Peer == nil {
+		return
+	}
+	cid, nid, ok := handshakeOf(sc.Peer)
+	run.reach("request_identity_checked")
+	if !ok {
+		run.violate("C20", "request_without_handshake", "request_without_handshake", "%v processed %T on a connection whose first request was no identity handshake", ni, req)
+		return
+	}
+	if cid != r.cid || nid != r.nid {
+		from := "?"
+		if sc.Peer.NC == nil {
+		} else if d, _ := sc.Peer.NC.User.(*nodeInc); d != nil {
+			from = fmt.Sprintf("cluster %x node %d", d.node.cid, d.node.id)
+		}
+		run.violate("C20", "request_for_other_identity", "foreign_request_processed", "cluster %x node %d processed %T from %s, who had dialled it as cluster %x node %d", r.cid, r.nid, req, from, cid, nid)
+	}
+}
+
+// checkConnIdentities: a dialer that was told it reached somebody else sends nothing more.
+func (l *ledgers) checkConnIdentities() {
+	run := l.run
+	for _, c := range run.net.Conns {
+		if !c.Dialer || c.Peer == nil {
+			continue
+		}
+		cid, nid, ok := handshakeOf(c)
+		if !ok {
+			continue
+		}
+		if c.Peer.NC == nil {
+			continue
+		}
+		acc, _ := c.Peer.NC.User.(*nodeInc)
+		if acc == nil {
+			continue
+		}
+		if cid == acc.node.cid && nid == acc.node.id {
+			continue
+		}
+		run.reach("handshake_at_wrong_node")
+		if c.Sent > handshakeLen {
+			run.violate("C20", "traffic_after_identity_mismatch", "traffic_after_mismatch", "a node that dialled cluster %x node %d reached cluster %x node %d and still sent %d bytes after the handshake", cid, nid, acc.node.cid, acc.node.id, c.Sent-handshakeLen)
+			return
+		}
+	}
+}
+
+func (l *ledgers) onSetIdentityAttempt(ni *nodeInc, err error) {
+	run := l.run
+	run.reach("set_identity_attempt")
+	if err == nil {
+		run.violate("C20", "identity_changed", "identity_overwritten", "SetIdentity with another identity succeeded on the storage directory of %v", ni)
+		return
+	}
+	ids, _ := filepath.Glob(filepath.Join(ni.dir, "*.id"))
+	want := fmt.Sprintf("%d-%d.id", ni.node.cid, ni.node.id)
+	if len(ids) != 1 || filepath.Base(ids[0]) != want {
+		run.violate("C20", "identity_changed", "identity_file_changed", "after a refused SetIdentity the directory of %v holds identity files %v, want %s", ni, ids, want)
+	}
+}
+
+func (l *ledgers) onIntruder(ni *nodeInc, firstServing bool, stage string, err error) {
+	run := l.run
+	run.reach("second_instance_attempt")
+	if ni.dead || ni.exited || !firstServing {
+		return // the first instance went away meanwhile: nothing to conclude
+	}
+	switch stage {
+	case "serving":
+		run.violate("C20", "two_instances", "two_instances_serve_one_directory", "a second Raft instance is serving the storage directory of %v while %v is still running", ni, ni)
+	case "serve":
+		if err != ErrLockExists && !ni.dead && !ni.exited && ni.locked() {
+			run.violate("C20", "second_instance_wrong_error", "second_serve_not_refused", "Serve of a second instance on the directory of %v returned %v, want ErrLockExists", ni, err)
+		}
+	}
 }
 
 // ---- status monitor goroutine (C19), runs on an uninstrumented helper via admin.submit -------------------------
